@@ -34,12 +34,31 @@ class FakeOs:
 
     def urandom(self, n):
         self.calls += 1
-        if self.seq:
-            v = self.seq.pop(0)
-        else:
+        v = self.seq.pop(0) if self.seq else None
+        b = None
+        if isinstance(v, dict):
+            # a value derived from what the source has produced before (the statement: whatever values the source produces):
+            # {"rep": k} the k-th value served so far again; {"mix": [i, j, off]} four octets taken across the boundary of two
+            # earlier values; {"rev": k} an earlier value with its octets reversed; {"inc": [k, d]} an earlier value plus d
+            try:
+                if "rep" in v:
+                    b = self.served[v["rep"]]
+                elif "mix" in v:
+                    i, j, off = v["mix"]
+                    b = (self.served[i] + self.served[j])[off:off + 4]
+                elif "rev" in v:
+                    b = self.served[v["rev"]][::-1]
+                elif "inc" in v:
+                    b = ((int.from_bytes(self.served[v["inc"][0]], "big") + v["inc"][1]) % 2**32).to_bytes(4, "big")
+            except (IndexError, KeyError, TypeError, ValueError):
+                b = None
+            v = None
+        if b is None and v is None:
             self.fresh += 1
-            v = 0x10000000 + self.fresh
-        b = v.to_bytes(4, "big")[:n].rjust(n, b"\0")
+            v = 0x10203040 + 0x01010101 * self.fresh
+        if b is None:
+            b = (v % 2**32).to_bytes(4, "big")
+        b = b[:n].rjust(n, b"\0")
         self.served.append(b)
         return b
 
@@ -215,8 +234,33 @@ op = st.one_of(
 def cases(draw):
     alphabet = draw(st.sampled_from([[5], [5, 6], [5, 6, 7], [0, 1], [2**32 - 1, 0]]))
     source = draw(st.lists(st.sampled_from(alphabet), min_size=0, max_size=40))
+    if draw(st.integers(0, 2)) == 0:
+        # fresh values first, then values derived from the ones already served
+        small = st.integers(0, 9)
+        derived = st.one_of(st.just(None), small.map(lambda k: {"rep": k}), st.tuples(small, small, st.integers(1, 3)).map(lambda t: {"mix": list(t)}),
+                            small.map(lambda k: {"rev": k}), st.tuples(small, st.sampled_from([1, -1, 256, 2**24])).map(lambda t: {"inc": list(t)}))
+        source = [None] * draw(st.integers(2, 6)) + draw(st.lists(derived, min_size=1, max_size=14))
     ops = draw(st.lists(op, min_size=2, max_size=14))
     return {"kind": "seq", "source": source, "ops": ops}
+
+
+def derived_sweep():
+    """directed histories: four requests' worth of fresh values, then a value cut across the boundary of two earlier ones (or their
+    reversal / successor), handed out once and then produced *again* by the source"""
+    out = []
+    for i in range(4):
+        for j in range(4):
+            if i == j:
+                continue
+            for off in (1, 2, 3):
+                for shape in (0, 1, 2):
+                    m = {"mix": [i, j, off]}
+                    src = [None] * 4 + ([m, None, {"rep": 4}, None], [None, m, None, {"rep": 5}], [m, {"mix": [j, i, off]}, {"rep": 4}, {"rep": 5}])[shape]
+                    out.append({"kind": "seq", "source": src, "ops": [{"op": "req"}] * 5})
+    for k in range(4):
+        for d in ({"rev": k}, {"inc": [k, 1]}, {"inc": [k, 256]}):
+            out.append({"kind": "seq", "source": [None] * 4 + [d, d, {"rep": 4}, {"rep": 4}, {"rep": 5}], "ops": [{"op": "req"}] * 5})
+    return out
 
 
 def _collect(shard, seed, n):
@@ -252,9 +296,12 @@ def main(ctx):
         ctx.required_classes = ["threads", "two-threads-in-draw-loop"]
     except ImportError:
         ctx.required_classes = []
+    for case in derived_sweep():
+        vs, fake = run_history(case)
+        col.record(case, vs, nontrivial=len(set(fake.served)) < len(fake.served), classes=["sequential", "source-derives-values-from-earlier-ones"])
     for path, rec in common.load_replays(PID):
         col.record(rec["case"], run_case(rec["case"]), nontrivial=True, classes=["replay"])
-    ctx.required_classes += ["source-repeated-a-value", "explicit-header-or-answer", "typed-request", "connection-closed-between-requests"]
+    ctx.required_classes += ["source-derives-values-from-earlier-ones", "source-repeated-a-value", "explicit-header-or-answer", "typed-request", "connection-closed-between-requests"]
     ctx.assumptions = ["the random source is bromelia.base.os.urandom, substituted by the harness; registries are cleared at the start of "
                        "each history (one history = one process lifetime)"]
 
